@@ -323,4 +323,24 @@ func rulesC09(e *Engine, r *Report) {
 	e.checkGateKeeperOnce(r, "R09.8")
 	// ---------------------------------------------------------------- R09.9
 	e.shareRule(r, "C08", "R08.4", "R09.9", "what the receiver acknowledges is what it recorded: the part count in the 206 answer is advanced only on the err == nil edge of GateKeeper.Receive, so a part whose range was NOT put on record (unreadable companion, disk full, partial missing) is never counted as received")
+	// ---------------------------------------------------------------- R09.10
+	r.Rule("R09.10", "the per-file lock stays ONE lock while anybody uses it: an entry of the stage's lock table is deleted only under a test that nobody else holds or awaits its mutex (a user count of zero, kept in the entry) - an unconditional delete lets the next caller of getPathLock create a second mutex for the same file while the first is still held or queued on, and two writers then update one companion concurrently (an acknowledged part vanishes from the record)")
+	{
+		n := 0
+		for _, fn := range e.FuncsIn("stage") {
+			for _, in := range e.findInstrs(fn, "builtin(delete)(p0.pathLocks, §)", false) {
+				n++
+				conds := e.domConds(in.Block())
+				guarded := false
+				for _, c := range conds {
+					if strings.Contains(c, "p0.pathLocks[") && (strings.Contains(c, " == 0)") || strings.Contains(c, "(0 == ") || strings.Contains(c, " <= 0)")) {
+						guarded = true
+					}
+				}
+				r.Check(guarded, "R09.10", e.ShortName(fn)+": the entry is removed only when it has no other user", e.InstrPos(in),
+					"the lock-table entry is deleted unconditionally: callers do so while holding the mutex (partReceived, Receive's duplicate arm) or right after unlocking it (finalize) although other requests may hold a pointer to it or be queued on it", 1, conds...)
+			}
+		}
+		r.Min("R09.10", "deletions from the per-file lock table", n, 1)
+	}
 }
